@@ -1,5 +1,7 @@
 """C02 -- the parser accepts exactly the Jaqal grammar and is insensitive to layout."""
+import os
 import random
+import re
 
 from .. import sx, gen, lib, refparse, monitors
 from .common import sig, case_prog
@@ -16,7 +18,8 @@ ASSUMPTIONS = ["reference grammar and lexer in vf/refparse.py (cross-checked on 
                "semantic rejections raised inside the parser (literal register size <= 0) and unlisted constructs (branch/case, "
                "'0101' literals, import..as) are outside the grammar clause and not judged"]
 TIERS = {"quick": {"shards": 8, "budget_s": 50}, "thorough": {"shards": 16, "budget_s": 480}}
-REQUIRE = {"shards-reducing-every-production-of-the-listed-grammar": 1, "layouts-checked": 2000, "near-misses-judged": 5000, "both-reject:position-checked": 2000,
+REQUIRE = {"entry-points-compared": 2000, "illegal-character-texts-judged": 1500, "mutation:lookalike-digit": 200, "mutation:exotic-character": 500,
+           "shards-reducing-every-production-of-the-listed-grammar": 1, "layouts-checked": 2000, "near-misses-judged": 5000, "both-reject:position-checked": 2000,
            "layout:multiple-block-comments": 100, "layout:multiline-block-comment": 50, "layout:line-comment": 200,
            "mutation:truncate": 500, "mutation:header-after-body": 100, "both-accept:tree-compared": 300}
 
@@ -59,7 +62,19 @@ def judge_text(text, expect_tree=None):
     info = {"ref": ref[0], "lib": got[0]}
     fails = []
     if ref[0] == "lex":
-        return "skipped:not-lexable", fails, info  # C16's territory
+        # a character that starts no token (or a never-closed block comment): not derivable, so the text must be
+        # refused, at that character or at a token before it (the parser may stop earlier)
+        lf = ref[1]
+        info["cmp"] = "illegal-character"
+        if got[0] == "ok":
+            fails.append(("accepts-text-with-illegal-character", {"character": repr(text[lf.pos]), "at": (lf.line, lf.col), "why": lf.why,
+                                                                  "text": text, "tree": got[1]}))
+        elif got[0] == "exc":
+            fails.append(("rejected-with-wrong-exception:%s:illegal-character" % got[1], {"error": got[2], "text": text}))
+        elif not (isinstance(got[1], int) and isinstance(got[2], int) and (got[1], got[2]) <= (lf.line, lf.col)):
+            fails.append(("error-position:after-illegal-character", {"reported": (got[1], got[2]), "illegal_character_at": (lf.line, lf.col),
+                                                                       "message": got[3], "text": text}))
+        return "ok", fails, info
     toks = ref[2]
     if any(t.kind in ("BININT", "BRANCH", "IMPORT", "AS") for t in toks):
         return "skipped:unlisted-construct", fails, info
@@ -142,6 +157,8 @@ def positives(ctx, prog, nlay):
             continue
         if info.get("cmp") == "both-accept":
             rec.count("both-accept:tree-compared")
+        if k % 2 == 1:
+            entry_points_agree(ctx, text)
         for clause, detail in fails:
             mech = [f for f in feats if f in ("multiple-block-comments", "multiline-block-comment", "line-comment")]
             small = shrink_text(text, clause, prog)
@@ -203,6 +220,35 @@ def render_tokens(toks):
     return s
 
 
+# characters outside the language that careless character classes / line splitting let through
+EXOTIC_SPACE = ["\u00a0", "\u2003", "\u3000", "\x0b", "\x0c", "\r", "\x1c", "\x1d", "\x1e", "\x85", "\u2028", "\u2029", "\ufeff"]
+EXOTIC_DIGIT = ["\u0660", "\u0663", "\uff12", "\u0967", "\u00b2", "\u2460", "\u0be7"]
+EXOTIC_LETTER = ["\u00e9", "\u0430", "\uff21", "\u03b1", "\u00aa", "\u2168"]
+EXOTIC_OTHER = ["$", "@", "#", "%", "&", "!", "?", "=", "(", ")", "\\", "^", "~", "`", "\"", "\x00", "\x7f"]
+
+
+def exotic_mutant(rng, toks):
+    """Swap one character of one token for a look-alike of the same Unicode category, or put a character that
+    is no Jaqal white space between two tokens."""
+    t = list(toks)
+    i = rng.randrange(len(t))
+    r = rng.random()
+    if r < 0.45 and t[i] != "\n":
+        w = t[i]
+        pos = [k for k, ch in enumerate(w) if ch.isdigit() or ch.isalpha()]
+        if pos:
+            k = rng.choice(pos)
+            sub = rng.choice(EXOTIC_DIGIT if w[k].isdigit() else EXOTIC_LETTER)
+            t[i] = w[:k] + sub + w[k + 1:]
+            return "lookalike-" + ("digit" if w[k].isdigit() else "letter"), t
+    ch = rng.choice(EXOTIC_SPACE if r < 0.8 else EXOTIC_OTHER)
+    if rng.random() < 0.5 and t[i] != "\n":
+        t[i] = t[i] + ch if rng.random() < 0.5 else ch + t[i]
+    else:
+        t.insert(i, ch)
+    return "exotic-character", t
+
+
 def mutants(rng, toks, prog, n):
     """n single-token mutants of a token list (strings)."""
     L = len(toks)
@@ -210,6 +256,9 @@ def mutants(rng, toks, prog, n):
     for _ in range(n):
         if L == 0:
             break
+        if rng.random() < 0.25:
+            out.append(exotic_mutant(rng, toks))
+            continue
         kind = rng.choice(["delete", "duplicate", "swap", "replace", "replace", "truncate", "insert"])
         i = rng.randrange(L)
         t = list(toks)
@@ -246,6 +295,53 @@ def header_after_body(rng, prog):
     return ("circuit",) + tuple(rest)
 
 
+def entry_points_agree(ctx, text):
+    """parse_jaqal_file / parse_jaqal_file_header on a file holding `text` must behave like the string entry
+    points on `text` (same circuit, or the same error at the same position).  ASCII texts only: how a file with
+    other bytes is decoded depends on the locale, which is not the library's business."""
+    rec = ctx.rec
+    if not text.isascii() or "\r" in text:
+        return
+    import tempfile
+
+    d = tempfile.mkdtemp(prefix="vf-c02-")
+    path = os.path.join(d, "prog.jaqal")
+    try:
+        with open(path, "w", newline="") as fd:
+            fd.write(text)
+        for tag, fs, ff in (("full", lambda: lib.parse(text), lambda: lib.parse_file(path)),
+                            ("header", lambda: lib.parse_header(text), lambda: lib.parse_file_header(path))):
+            a, b = lib.outcome(fs), lib.outcome(ff)
+            rec.count("entry-points-compared")
+            same = a[0] == b[0]
+            detail = {}
+            if same and a[0] == "ok":
+                ta, tb = lib.outcome(lib.generate, a[1]), lib.outcome(lib.generate, b[1])
+                try:
+                    same = (a[1] == b[1]) and ta[:2] == tb[:2]
+                except Exception:
+                    same = False
+                detail = {"string": ta[1] if ta[0] == "ok" else ta[:3], "file": tb[1] if tb[0] == "ok" else tb[:3]}
+            elif same:
+                # same class of error; the position (line:col) must agree, the file name in the message may differ
+                pa, pb = re.search(r":(\d+):(\d+): ", a[2] or ""), re.search(r":(\d+):(\d+): ", b[2] or "")
+                same = a[1] == b[1] and (pa.groups() if pa else None) == (pb.groups() if pb else None)
+                detail = {"string": a[2], "file": b[2]}
+            else:
+                detail = {"string": str(a[:3])[:300], "file": str(b[:3])[:300]}
+            if not same:
+                feats = [n for n, ch in (("form-feed", "\x0c"), ("vertical-tab", "\x0b"), ("fs-gs-rs", "\x1c"), ("fs-gs-rs", "\x1d"),
+                                         ("fs-gs-rs", "\x1e")) if ch in text]
+                rec.violation(sig("C02", "file-and-string-entry-points-differ:" + tag, sorted(set(feats))), dict(detail, text=text),
+                              {"kind": "entry", "text": text})
+    finally:
+        try:
+            os.remove(path)
+        except OSError:
+            pass
+        os.rmdir(d)
+
+
 def near_misses(ctx, prog, n):
     rec = ctx.rec
     rng = ctx.rng
@@ -273,6 +369,10 @@ def near_misses(ctx, prog, n):
                 rec.inconc(st)
             continue
         rec.count("near-misses-judged")
+        if info.get("cmp") == "illegal-character":
+            rec.count("illegal-character-texts-judged")
+        if kind in ("exotic-character", "truncate") and ctx.rng.random() < 0.3:
+            entry_points_agree(ctx, text)
         rec.count("outcome:ref-%s/lib-%s" % (info["ref"], info["lib"]))
         if info.get("cmp") == "both-reject" and "pos" in info:
             rec.count("both-reject:position-checked")
@@ -342,6 +442,9 @@ def shard(ctx):
 
 
 def replay(ctx, case):
+    if case.get("kind") == "entry":
+        entry_points_agree(ctx, case["text"])
+        return
     if case.get("kind") == "layout":
         prog = sx.unnorm(case["prog"]) if isinstance(case["prog"], list) else case["prog"]
         st, fails, info = judge_text(case["text"], expect_tree=prog)
